@@ -38,7 +38,15 @@ def lib_decode(hrp, s):
         return None
     if not (isinstance(r, tuple) and len(r) == 2):
         raise Violation('decode/shape', 'decode returned %r' % (r,))
-    return (r[0], bytes(r[1]))
+    out = (r[0], bytes(r[1]))
+    if isinstance(r[1], list) and r[1]:
+        # the returned program belongs to the caller: scribbling on it must not change what the NEXT decode of the same string says
+        r[1][0] ^= 0xff
+        r[1].append(7)
+        r2 = libx.call('decode', SA.decode, hrp, s)[1]
+        if r2 == (None, None) or (r2[0], bytes(r2[1])) != out:
+            raise Violation('decode/result-shared', 'decode(%r, %r) returns a different program after the caller edited the previous result in place' % (hrp, s))
+    return out
 
 
 def cmp_decode(hrp, s, must_reject=False, same_as=None, cls=None, tag='x'):
@@ -86,6 +94,13 @@ def check_codec(case):
                 raise Violation('encode/program-as-' + kind, 'encode(%r, %d, program as %s) differs' % (hrp, ver, kind))
     elif e is not None:
         raise Violation('encode/invalid-accepted', 'encode(%r, %d, %d-byte program) returned %r although BIP173 forbids it' % (hrp, ver, len(prog), e))
+    else:
+        # right after a REFUSED encode: strings with a broken checksum are still refused
+        good = R.encode(hrp if R.encode(hrp, 0, bytes(20)) else 'bc', 0, bytes(range(20)))
+        if good:
+            h2 = good[:good.index('1', 0)] if False else good.rsplit('1', 1)[0]
+            bad_ = good[:-1] + ('q' if good[-1] != 'q' else 'p')
+            cmp_decode(h2, bad_, must_reject=True, tag='after-refused-encode')
     got = cmp_decode(hrp, s, tag='codec')
     if valid and got != (ver, prog):
         raise Violation('decode/roundtrip', 'decode(encode(..)) != original')
